@@ -174,6 +174,21 @@ package pointindex
 //@   ensures 0 <= (2 * k + 1) * spanI(blx, trx) - pow2(l) * (2 * (k * gs(spanI(blx, trx) / pow2(d), d, l) + hfloor(gs(spanI(blx, trx) / pow2(d), d, l))))
 //@   ensures real((2 * k + 1) * spanI(blx, trx) - pow2(l) * (2 * (k * gs(spanI(blx, trx) / pow2(d), d, l) + hfloor(gs(spanI(blx, trx) / pow2(d), d, l)))))
 //@        <= real(pow2(l)) * (2 * (devU(blx, trx, d) + 2) + 1)
+// C08 (round grids): the pixel of a point on level l, and that pixel's size, do not depend on how deep the index is.
+// For a grid whose span S is a whole number of deepest pixels both for depth d1 and for depth d2 (S == 2^d * res):
+// dividing the deepest coordinate down to level l gives the same pixel coordinate, and the pixel span is the same.
+//@ lemma nest_div(a Int, b Int, c Int)
+//@   prelude arith
+//@   requires 0 <= a && b >= 1 && c >= 1
+//@   ensures (a / b) / c == a / (b * c)
+//@ lemma[C08] level_indep(a Int, S Int, l Int, d1 Int, res1 Int, d2 Int, res2 Int)
+//@   prelude arith
+//@   requires 0 <= l && l <= d1 && d1 <= 32 && l <= d2 && d2 <= 32 && 0 <= a && res1 >= 1 && res2 >= 1
+//@   requires S == pow2(d1) * res1 && S == pow2(d2) * res2
+//@   use pow2_split(d1, l) && pow2_split(d2, l) && pow2_pos(l) && pow2_pos(d1 - l) && pow2_pos(d2 - l)
+//@   use nest_div(a, res1, pow2(d1 - l)) && nest_div(a, res2, pow2(d2 - l))
+//@   ensures gs(res1, d1, l) == gs(res2, d2, l)
+//@   ensures (a / res1) / pow2(d1 - l) == (a / res2) / pow2(d2 - l)
 // the deepest-level coordinate of a point inside the grid is inside the grid
 //@ lemma coord_bound(px Int, minx Int, res Int, d Int)
 //@   prelude arith
